@@ -510,9 +510,10 @@ C12_Ops(G, e, t) ==
      /\ e.act # "deleteRecords" => e.ty \in OkTypes
      /\ e.ty \in OkTypes => GKey(G, t, e) \in RecKeys /\ AliveIn(G.reg, t, GTok(G, t, e.n))
      /\ e.act = "setRecord" /\ e.ty \in OkTypes /\ GKey(G, t, e) \in RecKeys => e.x >= 0 /\ e.x < Len(G.rec[GKey(G, t, e)])
-\* every mutation refreshes the SOA serial of the name the records live under
-C12_Serial(G, e, t, api) ==
-  Mutation(e) /\ GTok(G, t, e.n) \in NT =>
+\* every mutation refreshes the SOA serial of the name the records live under (t = instant of the
+\* transaction, rt = instant of the read; nothing is readable once the name has expired)
+C12_Serial(G, e, t, rt, api) ==
+  Mutation(e) /\ GTok(G, t, e.n) \in NT /\ ChainOK(G.reg, rt, GTok(G, t, e.n)) =>
      api.soa[GTok(G, t, e.n)].ok /\ api.soa[GTok(G, t, e.n)].mail # Nil /\ api.soa[GTok(G, t, e.n)].serial = t
 
 \* what a read of (n, ty) must show: the list held under the longest registered enclosing name.
